@@ -196,6 +196,32 @@ fn attr_index(world: u8, kw: StepType, re: &str) -> Option<usize> {
     })
 }
 
+/// the regex each attribute of the first World was registered with (attribute index -> regex text)
+fn registered_regexes() -> Vec<(usize, String)> {
+    let mut v = vec![];
+    macro_rules! collect {
+        ($assoc:ident, $kw:expr) => {
+            for s in inventory::iter::<<ZW as WorldInventory>::$assoc> {
+                let (_loc, regex, _f) = cucumber::codegen::StepConstructor::<ZW>::inner(s);
+                let re = regex();
+                if let Some(i) = attr_index(1, $kw, re.as_str()) { v.push((i, re.as_str().to_owned())); }
+            }
+        };
+    }
+    collect!(Given, StepType::Given);
+    collect!(When, StepType::When);
+    collect!(Then, StepType::Then);
+    v
+}
+
+/// the capture groups "as written": what the `regex` crate yields for the registered regex on the step
+/// text (whole match first, a group that did not take part gives ""), computed WITHOUT `Collection::find`
+fn groups_as_written(re: &str, text: &str) -> Vec<(Option<String>, String)> {
+    let re = Regex::new(re).unwrap();
+    let Some(c) = re.captures(text) else { return vec![] };
+    re.capture_names().enumerate().map(|(i, n)| (n.map(str::to_owned), c.get(i).map_or(String::new(), |m| m.as_str().to_owned()))).collect()
+}
+
 pub fn gen_reg(_rng: &mut Rng, _idx: usize) -> Case {
     let mut rows: Vec<String> = vec![];
     macro_rules! collect {
@@ -300,10 +326,17 @@ pub fn gen_dispatch(rng: &mut Rng, _idx: usize) -> Case {
             } else {
                 let ret = if a.func.starts_with("res") { if text.ends_with("err") { "err" } else { "ok" } } else { "u" };
                 let tys: Vec<String> = a.tys.chars().map(|c| c.to_string()).collect();
+                // the model is fed the groups as the regex crate gives them for the REGISTERED regex, not
+                // `ctx.matches`: a change in how `find` builds the matches shows as a wrong argument
+                let regs = registered_regexes();
+                let own = regs.iter().find(|(i, _)| *i == idx).map(|(_, r)| groups_as_written(r, text));
+                let Some(own) = own else {
+                    return Case { req: "harness.ended".into(), imp: "!attribute-not-registered".into(), class: "bug".into(), nontrivial: true };
+                };
                 req = format!(
                     "glue.args {} {} {} {}",
                     a.mode, show_list(&tys, |t| t.clone()), ret,
-                    show_list(&ctx.matches, |(n, v)| format!("{} {}", show_opt(n.as_ref(), |s| hex(s)), hex(v))),
+                    show_list(&own, |(n, v)| format!("{} {}", show_opt(n.as_ref(), |s| hex(s)), hex(v))),
                 );
                 imp = match r {
                     Err(_) => "!panic".to_owned(),
